@@ -400,7 +400,9 @@ pub fn project(bank: &Bank, ids: &Ids) -> Value {
                         set.push(i);
                     }
                 }
-                bundle.insert(me, json!({"mint": id(&m), "open": set}));
+                // the bundled-position accounts that actually exist (PDAs of this bundle's mint)
+                let existing: Vec<usize> = bundle_pdas(&m).iter().enumerate().filter(|(_, k)| bank.accts.get(k).map(|a| a.owner == wp_id && a.data.len() >= 8).unwrap_or(false)).map(|(i, _)| i).collect();
+                bundle.insert(me, json!({"mint": id(&m), "open": set, "existing": existing}));
             } else if d == whirlpool::state::LockConfig::DISCRIMINATOR {
                 let mut r = Rd::new(&a.data, 8);
                 let (p, o, w) = (r.key(), r.key(), r.key());
@@ -435,6 +437,19 @@ pub fn project(bank: &Bank, ids: &Ids) -> Value {
     }
     json!({"pool": pool, "tick": tick, "ta": ta, "pos": pos, "tok": tok, "mint": mint, "oracle": oracle,
            "cfg": cfg, "tier": tier, "atier": atier, "badge": badge, "ext": ext, "bundle": bundle, "lock": lock, "other": other})
+}
+
+thread_local! {
+    static BUNDLE_PDAS: std::cell::RefCell<BTreeMap<Pubkey, std::rc::Rc<Vec<Pubkey>>>> = const { std::cell::RefCell::new(BTreeMap::new()) };
+}
+/// the 256 bundled-position addresses of a bundle mint (cached: deriving them is expensive)
+pub fn bundle_pdas(mint: &Pubkey) -> std::rc::Rc<Vec<Pubkey>> {
+    BUNDLE_PDAS.with(|c| {
+        c.borrow_mut()
+            .entry(*mint)
+            .or_insert_with(|| std::rc::Rc::new((0..256u16).map(|i| Pubkey::find_program_address(&[b"bundled_position", mint.as_ref(), i.to_string().as_bytes()], &whirlpool::ID).0).collect()))
+            .clone()
+    })
 }
 
 fn pool_spacing(bank: &Bank, wp: &Pubkey) -> u16 {
